@@ -19,7 +19,7 @@ RULE = ("authentic packets from the independent V2 encoder (frame lengths 0,1,15
         "substitutions (8 values/position quick, all 255 for 3 packets thorough), random multi-byte corruptions, length-field "
         "rewrites; each fault class also replayed through LAN.send with the model device sending the corrupted packet. Oracle: "
         "_Packet.decode raises ProtocolError (returning the original frame is tolerated and counted; any other result or "
-        "exception type is a violation). Non-trivial: corrupted != authentic, >= 6 bytes, still starts with 5A5A. Distinct by (packet, fault).")
+        "exception type is a violation); in half of the cases the authentic packet is decoded first, as on a live connection. Non-trivial: corrupted != authentic, >= 6 bytes, still starts with 5A5A. Distinct by (packet, fault).")
 ASSUMPTIONS = ["fault model does not re-sign (a correctly re-signed packet is a different authentic packet; containment of those is C09)"]
 
 LENGTHS = [0, 1, 15, 16, 17, 31, 32, 33, 100, 255]
@@ -105,6 +105,13 @@ def check_case(case: dict):
         if got == [frame]:
             return None if case.get("tolerate_original", True) else ("send/original", "returned original")
         return ("send/misdecoded", f"LAN.send returned {[g.hex() for g in got]} for corrupted packet (authentic frame {frame.hex()})")
+    if case.get("prime", True):
+        # what happens on a real connection: the authentic packet was received (and accepted) before the altered one
+        try:
+            if bytes(_Packet.decode(pkt)) != frame:
+                return ("decode/authentic-misdecoded", "authentic packet not decoded to its frame")
+        except Exception as e:
+            return (f"decode/authentic-rejected/{type(e).__name__}", f"authentic packet rejected: {e!r}")
     try:
         got = _Packet.decode(bad)
     except ProtocolError:
@@ -142,7 +149,7 @@ def run(ctx) -> None:
         for bit in range(plen * 8):
             n += 1
             if ctx.mine(n):
-                case = dict(base, fault=["flip", bit])
+                case = dict(base, fault=["flip", bit], prime=bool((bit // 8) % 2))
                 ctx.check(case, lambda c: _run_one(ctx, c))
         # every truncation length
         for k in range(plen):
@@ -169,6 +176,9 @@ def run(ctx) -> None:
             else:
                 values = [pkt[pos] ^ 0xFF, 0x00, 0xFF, 0x5A, (pkt[pos] + 1) & 0xFF, (pkt[pos] - 1) & 0xFF,
                           rnd.randrange(256), rnd.randrange(256)]
+                # values with a meaning elsewhere in the protocol stack (frame start, V3 marker, type bytes, pad bytes)
+                values += [0xAA, 0x83, 0x70, 0x01, 0x11, 0x10, 0x20] if pos < 48 or pos >= len(pkt) - 17 else [0xAA, 0x10]
+                vals_per_pos = len(values)
             for v_ in values[:vals_per_pos]:
                 m += 1
                 if ctx.mine(m):
@@ -210,7 +220,7 @@ def run(ctx) -> None:
         st.tuples(st.just("length"), st.integers(0, 65535)).map(list),
         st.tuples(st.just("multi"), st.lists(st.tuples(st.integers(0, 400), st.integers(1, 255)).map(list), min_size=2, max_size=8)).map(list),
     )
-    cases = st.fixed_dictionaries({"frame": hexb(gens.frames_bytes(255)), "id": gens.device_ids(64), "fault": fault})
+    cases = st.fixed_dictionaries({"frame": hexb(gens.frames_bytes(255)), "id": gens.device_ids(64), "fault": fault, "prime": st.booleans()})
     send_cases = st.fixed_dictionaries({"frame": hexb(gens.frames_bytes(120)), "id": gens.device_ids(64), "fault": fault, "via": st.just("send")})
 
     def runner(case):
